@@ -14,6 +14,12 @@
 (*        without an amount is not expressible: in the frame the data      *)
 (*        classes take, NaN means "no read on that day".                   *)
 (*     out as for "billing"                                                *)
+(*  in.kind = "dailyreads": [n, first, missing]  n daily readings, the     *)
+(*        first day being a plain day ("plain") or a clock-change day       *)
+(*        ("short": 23 hours, "long": 25 hours); reading i carries Val(i);  *)
+(*        missing: indices without a value                                  *)
+(*     out = [res, days]  days[i] = [has, n, d, ok] for i in 1..n-1 (the    *)
+(*        final day, whose interval is open-ended, is excluded)             *)
 (*  in.kind = "subdaily": [interval, dayMin, missing, total]               *)
 (*        readings of `interval` minutes on a local day of dayMin minutes; *)
 (*        missing: indices (1-based) of the readings without a value;      *)
@@ -84,9 +90,17 @@ Clauses(in, out) ==
          <<"DailyValuesAddUpToTheBilledAmount", ok => \A k \in 1..n : Judged(k) => (O(k).sok /\ Eq(<<O(k).sn, O(k).sd>>, R(P(k).amount)))>>,
          <<"ConstantRateOverThePeriod", ok => \A k \in 1..n : (O(k).present /\ (k < n \/ P(k).extra = 0)) =>
                 (O(k).pok /\ Eq(<<O(k).pn, O(k).pd>>, Q(1440 * P(k).amount, PeriodMinutes(P(k)))))>> >>
+    [] in.kind = "dailyreads" ->
+      LET ok == out.res = "ok" /\ Len(out.days) = in.n - 1 IN
+      << <<"DataObjectBuilt", ok>>,
+         <<"DailyReadingKeptOnItsDay", ok => \A i \in 1..(in.n - 1) : i \notin Set(in.missing) =>
+                (out.days[i].has /\ out.days[i].ok /\ Eq(<<out.days[i].n, out.days[i].d>>, R(Val(i))))>>,
+         <<"NoUsageInventedOnADayWithoutReading", ok => \A i \in 1..(in.n - 1) : i \in Set(in.missing) => ~out.days[i].has>> >>
     [] in.kind = "subdaily" ->
       << <<"DataObjectBuilt", out.res = "ok">>,
          <<"DayCoveredHalfOrLessIsMissing", (out.res = "ok" /\ ~MoreThanHalf(in)) => ~out.has>>,
+         \* "missing" is a value, not a day: every local day of the span has exactly one row in the data object (the judged day is never the first or last)
+         <<"EveryDayOfTheSpanHasOneRow", out.res = "ok" => out.nrows = 1>>,
          <<"DayCoveredMoreThanHalfIsPresent", (out.res = "ok" /\ MoreThanHalf(in)) => out.has>>,
          <<"FullyCoveredDayIsTheSumOfItsReadings", (out.res = "ok" /\ Len(in.missing) = 0) => (out.has /\ out.ok /\ Eq(<<out.n, out.d>>, ExpUsage(in)))>>,
          <<"PartlyCoveredDayScaledByCoverage", (out.res = "ok" /\ MoreThanHalf(in) /\ Len(in.missing) > 0) => (out.has /\ out.ok /\ Eq(<<out.n, out.d>>, ExpUsage(in)))>> >>
